@@ -13,9 +13,9 @@ send() is the next byte of the reference stream (CR-LF expansion of the texts, i
 after a close, the pending count always equals what is owed (so only a tail given up on a full, refusing socket - or a
 dead connection - is ever lost, and a CR LF pair is kept or dropped as a whole), pending output always has write
 notification requested, and no out-of-bounds access or endless loop occurs. -/
-theorem model_satisfies_spec (script : List SendRes) (ops : List Op) :
-    judgeEv (events (run script ops)) = [] := by
-  have h := (runFrom_spec ops (St.init script) {} (init_ginv script) (init_rel script)).2
+theorem model_satisfies_spec (script : List SendRes) (ops : List Op) (console : Bool := false) :
+    judgeEv (events (run script ops console)) = [] := by
+  have h := (runFrom_spec ops (St.init script console) {} (init_ginv script console) (init_rel script console)).2
   unfold judgeEv events run
   rw [h.bad]; rfl
 
@@ -24,20 +24,24 @@ example : judgeEv (events (run [.acc 2, .wouldBlock]
     [.write false [104, 105, 10], .flush, .write true [10, 10], .sendres [.pipe], .write false [65], .close])) = [] :=
   model_satisfies_spec _ _
 
+/-- non-vacuity for the console user (write(2) path, flush at the end of add_message) -/
+example : judgeEv (events (run [.acc 0, .intr] [.write false [104, 10], .wready, .write true [65]] true)) = [] :=
+  model_satisfies_spec _ _ true
+
 /-- the oracle is not trivially satisfied: a trace that delivers a byte twice is rejected -/
 example : judgeEv [.wbeg false [65], .wend, .send 1 .acc [65], .send 1 .acc [65]] ≠ [] := by decide
 
 /-- `ring_inv`: after every run `producer = (consumer + length) mod N`, `length ≤ N`, `consumer < N`, the buffer has `N`
 cells and no out-of-range access happened (`fault = false`).  Every prefix of a run is a run, so this holds between any two
 operations; inside an operation it is re-established after every single put / send (`put_inv`, `consume_inv`). -/
-theorem ring_inv (script : List SendRes) (ops : List Op) : Inv (run script ops).1 :=
-  (runFrom_spec ops (St.init script) {} (init_ginv script) (init_rel script)).1.inv
+theorem ring_inv (script : List SendRes) (ops : List Op) (console : Bool := false) : Inv (run script ops console).1 :=
+  (runFrom_spec ops (St.init script console) {} (init_ginv script console) (init_rel script console)).1.inv
 
 /-- all indices are inside `message_buf` -/
-theorem ring_indices_in_bounds (script : List SendRes) (ops : List Op) :
-    (run script ops).1.prod < N ∧ (run script ops).1.cons < N ∧ (run script ops).1.len ≤ N ∧
-    (run script ops).1.buf.size = N :=
-  let h := ring_inv script ops
+theorem ring_indices_in_bounds (script : List SendRes) (ops : List Op) (console : Bool := false) :
+    (run script ops console).1.prod < N ∧ (run script ops console).1.cons < N ∧ (run script ops console).1.len ≤ N ∧
+    (run script ops console).1.buf.size = N :=
+  let h := ring_inv script ops console
   ⟨h.prod_lt, h.cons_lt, h.len_le, h.size⟩
 
 /-- `chunk never crosses the end`: in every state satisfying the ring invariant with pending output, the chunk handed to
@@ -49,14 +53,17 @@ example : ∃ s : St, Inv s ∧ s.len ≠ 0 :=
   ⟨put (St.init []) 65, put_inv (init_inv []) (by decide) 65, by rw [put_len (init_inv [])]; decide⟩
 
 /-- no out-of-bounds access, no zero-length send loop -/
-theorem no_fault (script : List SendRes) (ops : List Op) : (run script ops).1.fault = false :=
-  (ring_inv script ops).nofault
+theorem no_fault (script : List SendRes) (ops : List Op) (console : Bool := false) :
+    (run script ops console).1.fault = false :=
+  (ring_inv script ops console).nofault
 
-/-- liveness side of delivery: whenever output is pending on a live connection, write notification is requested from
-the event loop (so a later write-ready event flushes it) -/
-theorem write_interest_when_pending (script : List SendRes) (ops : List Op)
-    (hg : (run script ops).1.gone = false) (hl : (run script ops).1.len ≠ 0) : (run script ops).1.want = true :=
-  (runFrom_spec ops (St.init script) {} (init_ginv script) (init_rel script)).1.want hg hl
+/-- liveness side of delivery: whenever output is pending on a live connection, a later flush is guaranteed - write
+notification is requested from the event loop (network user), or the user is the console user, which process_io flushes
+on every pass -/
+theorem write_interest_when_pending (script : List SendRes) (ops : List Op) (console : Bool := false)
+    (hg : (run script ops console).1.gone = false) (hl : (run script ops console).1.len ≠ 0) :
+    ((run script ops console).1.want || (run script ops console).1.console) = true :=
+  (runFrom_spec ops (St.init script console) {} (init_ginv script console) (init_rel script console)).1.want hg hl
 
 /-- the regenerated buffer size is what the proofs need: at least two cells (room for one CR LF pair) -/
 theorem N_two_le : 2 ≤ N := N_ge_two
